@@ -45,6 +45,7 @@ def cfg_text(spec=None, init=None, next_=None, constants=None, invariants=(), pr
         lines.append(f"INIT {init}")
         lines.append(f"NEXT {next_}")
     consts = {d: "FALSE" for d in DEVIATIONS}
+    consts["Mutation"] = '"none"'
     if switches:
         for s in switches:
             consts[s] = "TRUE"
